@@ -449,6 +449,8 @@ Proof.
   cbn [log_frames flat_map app]. unfold lenN at 1. cbn [length]. rewrite N.add_0_r. exact Er.
 Qed.
 
+End WithHash.
+
 (* ------------------------------------------------------------------ a concrete log (non-vacuity) *)
 (* A deliberately weak "hash" - the theorems hold for every function. *)
 Definition exH (p : bytes) : N := fold_left (fun a b => a * 131 + b + 7) p 1.
